@@ -36,6 +36,10 @@ for it in range(R.n(40, 1500)):
     R.check('get_index/nearest', dict(c, x=x), abs(x - (f.fmin + k * df)) <= df / 2 * (1 + 1e-9) + 4 * np.spacing(abs(x)), k)
     R.check('derived', c, abs(f.fmid - (f.fmin + f.fmax) / 2) <= tol and abs(f.t_stop - (f.t_start + T * dt)) <= 1e-9 and len(f.ts_ext) == T + 1
             and abs(f.ts_ext[-1] - T * dt) <= 1e-9 * T * dt and abs(f.unit_drift_rate - df / dt) <= 1e-12 * df / dt, None)
+    t_keep = f.t_start
+    f.t_start = t_keep + 4000.0
+    R.check('derived/t_stop-follows-a-re-timed-start', c, abs(f.t_stop - (t_keep + 4000.0 + T * dt)) <= 1e-6, f.t_stop, t_keep + 4000.0 + T * dt)
+    f.t_start = t_keep
     # opposite orientation, same band
     g = stg.Frame(fchans=n, tchans=T, df=df, dt=dt, fch1=(f.fmin if asc else f.fmax) if False else (f.fmax if asc else f.fmin), ascending=not asc, t_start=0)
     R.check('orientation/same-axes', c, np.allclose(f.fs, g.fs, rtol=0, atol=1e-9 * df + 8 * np.spacing(abs(fch1) + n * df)) and np.array_equal(f.ts, g.ts), float(np.max(np.abs(f.fs - g.fs))))
